@@ -95,24 +95,24 @@ pub fn open_flow(
                 Ordering::Greater => {
                     // if the user is paying more than the flow_fee and is not trying to open a
                     // flow with the same asset as the flow_fee, refund the difference
-                    match flow_asset.info.clone() {
-                        AssetInfo::Token { .. } => {}
+                    let refund_surplus = match flow_asset.info.clone() {
+                        // a cw20 flow is never funded by the fee coin: the surplus goes back too
+                        AssetInfo::Token { .. } => true,
                         AssetInfo::NativeToken {
                             denom: flow_asset_denom,
-                        } => {
-                            if flow_fee_denom != flow_asset_denom {
-                                messages.push(
-                                    BankMsg::Send {
-                                        to_address: info.sender.clone().into_string(),
-                                        amount: vec![Coin {
-                                            amount: paid_amount - flow_fee.amount,
-                                            denom: flow_fee_denom.clone(),
-                                        }],
-                                    }
-                                    .into(),
-                                );
+                        } => flow_fee_denom != flow_asset_denom,
+                    };
+                    if refund_surplus {
+                        messages.push(
+                            BankMsg::Send {
+                                to_address: info.sender.clone().into_string(),
+                                amount: vec![Coin {
+                                    amount: paid_amount - flow_fee.amount,
+                                    denom: flow_fee_denom.clone(),
+                                }],
                             }
-                        }
+                            .into(),
+                        );
                     }
                 }
             }
